@@ -43,7 +43,8 @@ PROPS = {
     ),
     "C03": dict(
         domain="world", module="Props.C03",
-        theorems=["C03_dead_handle_is_absent", "C03_stale_forever"],
+        theorems=["C03_dead_handle_is_absent", "C03_stale_forever", "C03_lending_lookup_of_a_dead_handle",
+                  "C03_restricted_lookup_of_a_dead_handle"],
         required="spec",
         nontrivial="a storage access goes through a handle whose index has been taken over by a later entity",
     ),
